@@ -267,8 +267,8 @@ class GenInh(dynlib.Gen):
             elif kind == "base_setformula" and nd["cells"]:
                 c = rng.choice(nd["cells"])[0]
                 if not sole_definer(defs, p, c):
-                    self.avoided["D2_C03_setformula_below_an_override"] += 1
-                    return False
+                    # D2 (C03) is repaired in /repo: assignments below an override are generated
+                    self.avoided["setformula_below_an_override_generated"] = self.avoided.get("setformula_below_an_override_generated", 0) + 1
                 op = dict(zip(["c", "params", "body"], gen_cells(rng, c, ctx_inh(defs, p, upto=c))), op="setformula", p=p)
             elif kind == "base_newcells":
                 free = [c for c in CELLS if c not in [x[0] for x in nd["cells"]]
@@ -336,8 +336,8 @@ class GenInh(dynlib.Gen):
                 nd = rng.choice(nds)
                 c = rng.choice(nd["cells"])[0]
                 if not sole_definer(defs, nd["path"], c):
-                    self.avoided["D2_C03_setformula_below_an_override"] += 1
-                    return False
+                    # D2 (C03) is repaired in /repo: assignments below an override are generated
+                    self.avoided["setformula_below_an_override_generated"] = self.avoided.get("setformula_below_an_override_generated", 0) + 1
                 op = dict(zip(["c", "params", "body"], gen_cells(rng, c, ctx_inh(defs, nd["path"], upto=c))),
                           op="setformula", p=nd["path"])
         elif kind == "setglobal":
